@@ -154,6 +154,11 @@ class C14(Prop):
                      'differential correspondence check against the real code on a virtual-time reactor',
     }
 
+    # ----- translator tie: the asynchronous runner's source as data (TTV/Generated/AsyncSkel.lean), the Spinner's (shared with C15)
+    def extract_tables(self, repo):
+        from harness import pyasync2lean, pyspinner2lean
+        return {'TTV/Generated/AsyncSkel.lean': pyasync2lean.generate(repo), 'TTV/Generated/SpinnerSkel.lean': pyspinner2lean.generate(repo)}
+
     # ----- implementation side
     def run_impl(self, inp):
         from twisted.logger import globalLogPublisher as pub
